@@ -42,9 +42,9 @@ def seeds(suffix):
     return rows
 
 
-def harmless():
+def harmless(sub="harmless"):
     rows = []
-    for d in sorted(glob.glob(f"{ROOT}/seeded/harmless/*_*")):
+    for d in sorted(glob.glob(f"{ROOT}/seeded/{sub}/*_*")):
         name = os.path.basename(d)
         first = final = ""
         if os.path.exists(d + "/result_first_run.txt"):
@@ -81,6 +81,8 @@ def main():
         "ROUND1": ["| property | change | result of `./check` (quick tier) |", "|---|---|---|"] + seeds(""),
         "ROUND2": ["| seed | change | result of `./check` (quick tier) |", "|---|---|---|"] + seeds("-2"),
         "ROUND3": ["| seed | change | result of `./check` (quick tier) |", "|---|---|---|"] + seeds("-3"),
+        "ROUND4": ["| seed | change | result of `./check` (quick tier) |", "|---|---|---|"] + seeds("-4"),
+        "HARMLESS2": ["| patch | what it rewrites | first run | final |", "|---|---|---|---|"] + harmless("harmless2"),
         "HARMLESS": ["| patch | what it rewrites | first run | after the corrections of Appendix A.9 |", "|---|---|---|---|"] + harmless(),
     }
     for k, rows in blocks.items():
